@@ -114,6 +114,38 @@ def make_pairs(n, salt, thorough):
     return out
 
 
+def structured_pairs(thorough):
+    """Aggregation slice: replicate -> [follower] -> aggregate shapes with EVERY assignment of
+    {Success, shutdown-reason} to the replicas (and to a non-replicated co-producer)."""
+    import itertools
+    out = []
+    for n in ((2, 3) if thorough else (2,)):
+        for shape in ("direct", "follower", "mixed"):
+            comps = [{"name": "Alpha", "stage": 0, "refs": [], "jobtype": "simulator", "replicate": n,
+                      "shutdownOn": ["KnownIssue"]}]
+            last = "Alpha"
+            if shape == "follower":
+                comps.append({"name": "Beta", "stage": 0, "refs": ["Alpha"], "jobtype": "simulator"})
+                last = "Beta"
+            refs = [last]
+            if shape == "mixed":
+                comps.append({"name": "Gamma", "stage": 0, "refs": [], "jobtype": "simulator", "shutdownOn": ["KnownIssue"]})
+                refs.append("Gamma")
+            comps.append({"name": "Delta", "stage": 1, "refs": refs, "jobtype": "simulator", "aggregate": True})
+            comps.append({"name": "Eps", "stage": 1, "refs": ["Delta"], "jobtype": "simulator"})
+            wf = {"stages": 2, "components": comps}
+            letters = ["Success", "KnownIssue"]
+            n_vars = n + (1 if shape == "mixed" else 0)
+            for assign in itertools.product(letters, repeat=n_vars):
+                sc = {"default": {"reason": "Success", "duration": 1.0, "files": ["out.dat"]}, "components": {}}
+                for i in range(n):
+                    sc["components"]["stage0.Alpha%d" % i] = [{"reason": assign[i], "duration": 0.5 + 0.5 * i}]
+                if shape == "mixed":
+                    sc["components"]["stage0.Gamma"] = [{"reason": assign[n], "duration": 1.0}]
+                out.append({"wf": wf, "script": sc, "id": "agg-%s-%d-%s" % (shape, n, "".join(a[0] for a in assign))})
+    return out
+
+
 def main():
     c = vlib.Check(PROP, "exploration",
                    rule="one evaluation = one controller execution of a (workflow, exit script) pair under one "
@@ -143,9 +175,21 @@ def main():
     while True:
         rng = vlib.rng(PROP, "sched", rnd)
         pairs = make_pairs(pairs_per_round, rnd, thorough)
+        sched_of = {}
+        if rnd == 0:
+            sp = structured_pairs(thorough)
+            if not thorough:
+                sp = rng.sample(sp, 8)
+            for p in sp:
+                sched_of[p["id"]] = 3 if not thorough else 6
+            pairs = sp + pairs
+            c.count("aggregation_slice_pairs", len(sp))
+            if thorough:
+                c.extra["aggregation_slice"] = {"pairs": len(sp), "exhaustive": True,
+                                                "space": "shapes {direct, follower, mixed} x N in {2,3} x all {Success, shutdown} assignments"}
         scs = []
         for p in pairs:
-            for j in range(schedules):
+            for j in range(sched_of.get(p["id"], schedules)):
                 scs.append({"wf": p["wf"], "script": p["script"], "pair": p["id"], "pseed": rng.randrange(1 << 30),
                             "jitter_p": rng.choice([0.0, 0.2, 0.5, 0.8]),
                             "jitter_max": rng.choice([0.005, 0.02, 0.05]), "storm": rng.random() < 0.7})
